@@ -28,6 +28,7 @@ EXPLANATION = (
     "h0_prop_fp of the restricted class, whose propagate_free is an explicit refusal) are excluded. "
     "PRNG-1: the restricted and the unrestricted local reconfiguration consume the key identically (new "
     "key stored back, subkey drawn from). "
+    " KEYS-4: a trial builder that rewrites ham_data['h1'] (symmetrisation) computes what it stores next to it (rot_h1 ...) from the h1 it stores, not from the incoming one. "
 )
 NOT_DECIDED = "equality of restricted and unrestricted trajectories and energies (numerical)."
 TECHNIQUE = "static analysis: batching shape rule, walker-axis mixing query over def-use terms, linear value numbering of the two builders"
